@@ -74,7 +74,7 @@ func (Prop) Gen(r *core.Rand, tier string) interface{} {
 		w.SkipHooks = r.Chance(12)
 		c.W = &w
 	} else {
-		ro := ops.GenROp(r, []string{"first", "take_struct", "find_all", "find_where", "find_pets", "preload", "preload", "find_in_batches", "foc_found", "foc_assign", "joins"})
+		ro := ops.GenROp(r, []string{"first", "take_struct", "find_all", "find_where", "find_names", "find_omit_id", "find_pets", "preload", "preload", "find_in_batches", "foc_found", "foc_assign", "joins"})
 		ro.SkipHooks = r.Chance(12)
 		c.R = &ro
 	}
